@@ -1,7 +1,10 @@
 """C31 - comments, spacing and line directives do not change a cdef's meaning.
 
 Specification: specs/Preproc.tla.  A cdef is a sequence of lines of preprocessing tokens (a
-               corpus of 28 #define and declaration lines covering cdef's features); the module's
+               corpus of 32 #define and declaration lines covering cdef's features, among them the
+               '...' forms that cdef rewrites textually before the C parser sees them, with types
+               of several keywords: 'typedef unsigned long ... T;', 'typedef long long int ... T;',
+               'typedef float ... T;', 'enum { A = ..., B, ... }'); the module's
                content is the LEGALITY of putting a piece of trivia (17 kinds: block / multi-line /
                odd comments, line comments, spaces, tabs, newlines, form feed, no space at all,
                backslash-newline, three forms of line directive) into a gap between two tokens,
@@ -22,7 +25,7 @@ from harness import parse_env as pe
 from harness import parse_denote as pd
 
 LEVEL = "model_checking"
-NLINES = 28
+NLINES = 32
 
 WHAT = {"rejected": "the text with the trivia is rejected (or accepted) differently from the untouched text",
         "declarations": "the declaration table differs", "constants": "the integer constants differ",
@@ -31,11 +34,11 @@ WHAT = {"rejected": "the text with the trivia is rejected (or accepted) differen
 
 
 def choose_cdefs(rng, n):
-    """n cdefs of 3-6 distinct corpus lines; together they cover the corpus"""
+    """at least n cdefs of 3-6 distinct corpus lines; cdefs are added until every corpus line is in one"""
     order = list(range(1, NLINES + 1))
     rng.shuffle(order)
     cdefs, i = [], 0
-    while len(cdefs) < n:
+    while len(cdefs) < n or i < NLINES:
         m = rng.randint(3, 6)
         pick = []
         while len(pick) < m:
@@ -48,7 +51,7 @@ def choose_cdefs(rng, n):
     return cdefs
 
 
-def cfg(maxins, invs=("OrderedIns", "AllLegal", "NoBrokenDirective", "Emit")):
+def cfg(maxins, invs=("OrderedIns", "AllLegal", "NoBrokenDirective", "EllipsisTypeGapsOffered", "Emit")):
     return "SPECIFICATION Spec\nCONSTANT MaxIns = %d\n%sCHECK_DEADLOCK FALSE\n" % (
         maxins, "".join("INVARIANT %s\n" % i for i in invs))
 
@@ -138,7 +141,7 @@ def run(ctx):
     multi = []
     if not quick:
         # simulation mode evaluates Emit on every successor it generates before choosing one: ~600 texts per step
-        r = core.tlc("Preproc", cfg_text=cfg(6, invs=("AllLegal", "NoBrokenDirective", "Emit")), workers=2,
+        r = core.tlc("Preproc", cfg_text=cfg(6, invs=("AllLegal", "NoBrokenDirective", "EllipsisTypeGapsOffered", "Emit")), workers=2,
                      env={"CDEF_FILE": cdef_file}, simulate="num=40", depth=7, seed=ctx.seed + 1, timeout=2400)
         ctx.add_tlc("Preproc(simulate,<=6 insertions)", r, count_states=False)
         seen = {row[3] for row in rows}
@@ -204,12 +207,13 @@ META = {
     "text": "The legality of inserting each of 17 kinds of trivia (comments incl. multi-line and odd contents, line "
             "comments, spaces, tabs, newlines, form feed, removal of optional space, backslash-newline, three forms of "
             "line directive) into each gap of #define and declaration lines is specified from the C translation phases; "
-            "TLC enumerates every legal single insertion for seeded cdefs over a 28-line corpus (and random multiple "
+            "TLC enumerates every legal single insertion for seeded cdefs that together cover a 32-line corpus (incl. the "
+            "textually rewritten '...' forms with multi-keyword types, gap class in-ellipsis-type; and random multiple "
             "insertions in the thorough tier) and renders the text; each text is given to a fresh FFI and its declaration "
             "table, constants, backend layout and the bytes of emit_c_code()/emit_python_code() are compared with those of "
             "the untouched text; TLC validates every recorded observation (legality + equality).",
     "note": "Trusted: TLC. Trivia is inserted between tokens only; carriage return is not in the trivia set. The corpus is "
-            "fixed (28 lines); cdefs are seeded selections of 3-6 lines.",
+            "fixed (32 lines); cdefs are seeded selections of 3-6 lines, as many as needed to cover the corpus.",
     "technique": "TLA+ insertion machine with legality conditions (TLC exhaustive singles + simulation) + replay + TLC trace validation",
     "design_ref": "DESIGN.md §3 C31",
 }
